@@ -42,7 +42,7 @@ func init() {
 	registerRule("R28", func(c *Ctx) { c.run("R27") })
 
 	registerProp(&propSpec{ID: "C01", Level: "other",
-		Rules: []string{"R01", "R02", "R03", "R05", "R37", "R21", "R22"},
+		Rules: []string{"R01", "R02", "R03", "R05", "R37", "R21", "R22", "R24"},
 		Explain: "Static clauses of 'exact map under any history', decided on the type-checked source of every copy of the tree code (5 generated kinds + collation): " +
 			"R01 every index/slice of a caller-controlled key is dominated by the length fact it needs (so probing an absent key cannot fault on a key index); " +
 			"R02 every success outcome of Search/Delete and the value overwrite of Insert is dominated by the true edge of the full-key comparison with the stored form restoreKey returns; " +
@@ -84,7 +84,7 @@ func init() {
 		Explain:    "The compound instantiation is analysed by all kind-generic rules; R18/R08: the constructor stores the caller's codec in the field every method reads, every key→bytes conversion is bck.Transform with the SAME result index at Insert, Search, Delete and both Range bounds, stored bytes are decoded with bck.Restore.",
 		NotDecided: "Everything that depends on what the user's codec computes (injectivity, order, prefix-freedom are the property's premise and are recorded as assumptions)."})
 	registerProp(&propSpec{ID: "C14", Level: "other", DesignRef: "§4 C14",
-		Rules:      []string{"R27", "R28", "R38"},
+		Rules:      []string{"R27", "R28", "R38", "R29"},
 		Explain:    "R27 no sequence closure assigns, increments or takes the address of a variable declared outside it, so a second pass starts from the same captured values; R28 every yield call decides a branch whose false outcome reaches the function exit with no further yield call reachable (go/cfg reachability), and no yield is deferred. 12 closures, all yield sites.",
 		NotDecided: "Nothing value-level: with the tree unchanged, the yielded elements are those of C02–C05."})
 	registerProp(&propSpec{ID: "C07", Level: "other", DesignRef: "§4 C07",
@@ -112,7 +112,7 @@ func init() {
 		Explain:    "R26 must-dataflow of the fact 'this slice variable refers to memory the library allocated itself' (established by make/copy helpers, string→[]byte conversions, bytes.Clone, and callees whose every return is such a value – derived from their own bodies). Every write sink (append, copy, indexed store, passing to a callee that writes through that parameter) and every retention sink (unsafe.SliceData / &x[i] / storing the slice in a leaf literal or tree memory; sinks inside the leaf-creating closure are evaluated at each of its call sites) on a slice that may alias a key argument requires that fact; 64 functions reachable from Insert/Search/Delete/Prefix/Range of the byte-keyed kinds (byte-string and collation).",
 		NotDecided: "Compound codecs written by the user (out of the property's scope). One named exception, printed in evidence: CollationOrderKey.src keeps the last key slice as codec scratch that no function reachable from the Tree API reads."})
 	registerProp(&propSpec{ID: "C15", Level: "other", DesignRef: "§4 C15",
-		Rules:      []string{"R29", "R02", "R04", "R03", "R14", "R25", "R23"},
+		Rules:      []string{"R29", "R17", "R02", "R04", "R03", "R14", "R25", "R23"},
 		Explain:    "R29 effect analysis of the 111 functions reachable (call graph incl. method values, interface fan-out, closures) from Search/Minimum/Maximum/Size/All/Backward/Prefix/Range/TopK/BottomK of every kind: every store and every call that writes through an argument targets a local value or memory the function allocated itself – no store reaches tree memory, a captured variable or a package variable; R02/R04 every mutation of Delete is dominated by the successful full-key comparison and a false return carries no tree write; R03 the overwrite path of Insert carries the value store and nothing else (no node store without a split); R14/R25/R23 only Insert/Delete write size, root and node fields.",
 		NotDecided: "Named exception (printed in evidence): the collation codec scratch (CollationOrderKey.src, its collate.Buffer and the collator's iterators) is written by queries of collation trees; it is outside the node graph and unobservable through the Tree API."})
 	registerProp(&propSpec{ID: "C16", Level: "other", DesignRef: "§4 C16",
